@@ -5,6 +5,7 @@ use vh::report::*;
 mod c02;
 mod c03;
 mod c05;
+mod c07;
 mod c09;
 mod c13;
 mod c19;
@@ -24,6 +25,7 @@ fn main() {
         "C02" => ("model_checking", c02::run(&cli, "C02")),
         "C14" => ("model_checking", c02::run(&cli, "C14")),
         "C03" => ("exploration", c03::run(&cli)),
+        "C07" => ("fault_enumeration", c07::run(&cli)),
         "C13" => ("fault_enumeration", c13::run(&cli)),
         "C19" => ("model_checking", c19::run(&cli)),
         "C05" => ("model_checking", c05::run(&cli)),
